@@ -360,7 +360,8 @@ type c03Result struct {
 }
 
 func c03Exec(j c03Job, p *c03Prep, ch vrt.Chooser, states *vrt.StateSet, trace bool) (res c03Result) {
-	w := world.New(ch, world.Cfg{Snap: p.snap, Chains: map[string]*simeth.Chain{"node1": p.orig}})
+	g := &gate{inner: ch}
+	w := world.New(g, world.Cfg{Snap: p.snap, Chains: map[string]*simeth.Chain{"node1": p.orig}})
 	w.V.States = states
 	w.V.TraceOn = trace
 	res.versions = map[int]int{}
@@ -411,6 +412,7 @@ func c03Exec(j c03Job, p *c03Prep, ch vrt.Chooser, states *vrt.StateSet, trace b
 			}
 		}
 		w.V.WaitIdle()
+		g.open = true
 		phase2Seq = len(w.Net.Exchanges())
 
 		// ---- frame condition on every commit
@@ -459,7 +461,7 @@ func c03Exec(j c03Job, p *c03Prep, ch vrt.Chooser, states *vrt.StateSet, trace b
 				if chg.Table == "shovel.task_updates" {
 					ig, what = strOf(chg.Row, "ig_name"), "cursor"
 					num, _ = numOf(chg.Row, "num")
-				} else if g, ok := tableIG[chg.Table]; ok {
+				} else if g, ok := tableIG[strings.TrimPrefix(chg.Table, "public.")]; ok {
 					ig = g
 					num, _ = blockNumOf(chg.Row)
 				} else {
